@@ -3,6 +3,7 @@ Props/C09.lean — property theorems for C09 (move/rotate and the pose setters f
 documented path semantics).  Only property statements live here; helpers are in Lemmas/.
 -/
 import MagpyVerif.Lemmas.Path
+import MagpyVerif.Lemmas.Tree
 namespace MagpyVerif.C09
 open MagpyVerif Gen Spec
 variable {G V : Type}
@@ -99,4 +100,67 @@ theorem rotate_refines_spec [Mul G] [SMul G V] [Add V] [Sub V]
         rw [g1]
         rfl
       · simp only [hin, if_false]
+
+/-- C09(c): over every finite history of move / rotate / rotate_from_* / position= /
+orientation= / reset_path (and rejected calls) applied to any node of any collection tree,
+every object's position and orientation paths keep equal length ≥ 1. -/
+theorem lengths_equal_ge1 [Mul G] [Inv G] [One G] [SMul G V] [Add V] [Sub V] [Zero V]
+    (t : Node G V) (ops : List (Op G V)) (h : t.All Obj.Inv) :
+    (ops.foldl Node.step t).All Obj.Inv := by
+  induction ops generalizing t with
+  | nil => exact h
+  | cons op ops ih => exact ih _ (Node.step_inv t op h)
+
+/-- C09(d): the position setter stores the input and edge-pads / end-slices the orientation
+path to the same length (entry `i` = old entry `i + (N−M)` when slicing, clamped when padding);
+the orientation setter does the same to the position path. -/
+theorem setters_pad_or_slice (o : Obj G V) (hq : o.ori ≠ []) (hp : o.pos ≠ [])
+    (ps : List V) (qs : List G) (i : Nat) :
+    (setPositionObj ps o).pos = ps ∧
+    (setPositionObj ps o).ori[i]? =
+      (if i < ps.length then
+        (if ps.length ≤ o.ori.length then o.ori[i + (o.ori.length - ps.length)]?
+         else o.ori[min i (o.ori.length - 1)]?)
+       else none) ∧
+    (setOrientationObj qs o).ori = qs ∧
+    (setOrientationObj qs o).pos[i]? =
+      (if i < qs.length then
+        (if qs.length ≤ o.pos.length then o.pos[i + (o.pos.length - qs.length)]?
+         else o.pos[min i (o.pos.length - 1)]?)
+       else none) :=
+  ⟨rfl, getElem?_padSlice _ _ hq i, rfl, getElem?_padSlice _ _ hp i⟩
+
+/-- C09(e): a rejected call changes nothing (model level: the state machine keeps the tree;
+that the real validators raise *before* any mutation is what the `path` correspondence stream
+checks on every rejected operation, including the empty position / orientation path). -/
+theorem rejected_changes_nothing [Mul G] [Inv G] [One G] [SMul G V] [Add V] [Sub V] [Zero V]
+    (t : Node G V) (a : List Nat) :
+    t.step .rejected = t ∧ t.step (.setPos a []) = t ∧ t.step (.setOri a []) = t :=
+  ⟨rfl, rfl, rfl⟩
+
+/-- C09(f): `start='auto'` is 0 for scalar input and `len(path)` for vector input, negative
+`start` counts from the end — the generated `path_padding_param` realises the documented window
+for every integer `start`, every old length and every input length. -/
+theorem padding_realises_window (scalar : Bool) (n l : Nat) (start : Option Int)
+    (hl : scalar = true → l = 1) :
+    let r := pathPaddingParam scalar n l start
+    let w := window scalar n l start
+    (padOf r.1).1 = w.b ∧ r.2.toNat = w.s0 ∧ 0 ≤ r.2 ∧
+    n + (padOf r.1).1 + (padOf r.1).2 = w.newLen ∧ w.s0 + l ≤ w.newLen :=
+  pathPaddingParam_spec scalar n l start hl
+
+-- non-vacuity: the hypotheses are met by concrete states, and the window is the documented one
+example : (Node.mk (G := Int) (V := Int) ⟨[1, 2], [0, 0]⟩ [Node.mk ⟨[5], [1]⟩ []]).All Obj.Inv := by
+  refine .mk ⟨rfl, by decide⟩ ?_
+  intro c hc
+  simp at hc
+  subst hc
+  exact .mk ⟨rfl, by decide⟩ (by simp)
+example : window false 3 2 none = ⟨0, 3, 5, 5⟩ := by decide
+example : window false 3 2 (some (-5)) = ⟨2, 0, 5, 2⟩ := by decide
+example : window true 3 1 (some 4) = ⟨0, 4, 5, 5⟩ := by decide
+example : window true 3 1 (some (-1)) = ⟨0, 2, 3, 3⟩ := by decide
+example : (applyMove (G := Int) (PathIn.vector [10, 20]) (some (-4)) ⟨[1, 2, 3], [0, 0, 0]⟩).pos
+    = [11, 21, 2, 3] := by decide
+
 end MagpyVerif.C09
